@@ -70,7 +70,7 @@ def has_s3(repo, cfg, store):
 class World:
     """1..n repositories with configs inside one sandbox"""
 
-    def __init__(self, rng, nrepos=1, settings=None, extra_lines=None, select_all=False, name="sb", urls=None):
+    def __init__(self, rng, nrepos=1, settings=None, extra_lines=None, select_all=False, name="sb", urls=None, force_multi=False):
         self.rng = rng
         self.repos = []
         self.cfgs = {}
@@ -78,7 +78,7 @@ class World:
         for i in range(nrepos):
             repo = upstream.gen_repo(rng, url=(urls or URLS)[i])
             self.repos.append(repo)
-            lines, cfg = scenario.gen_config_for(rng, repo, select_all=select_all)
+            lines, cfg = scenario.gen_config_for(rng, repo, select_all=select_all, force_multi=force_multi)
             self.lines += lines
             self.cfgs[repo["url"]] = cfg
         self.settings = settings or {}
